@@ -177,9 +177,10 @@ def run_probe(ctx, probe, items, tag, trace=None, fuel=FUEL, cpu_ms=2000):
         env = dict(os.environ)
         env.update(ctx.env({"ASAN_OPTIONS": "detect_leaks=0:abort_on_error=1:quarantine_size_mb=16:allocator_may_return_null=1",
                             "NANOLANG_VERIF_PARSE_FUEL": fuel}))
-        env.pop("NANOLANG_VERIF_TRACE", None)
+        for k2 in [x for x in env if x.startswith("NANOLANG_VERIF_TRACE")]:
+            env.pop(k2)
         if trace:
-            env["NANOLANG_VERIF_TRACE"] = trace
+            env["NANOLANG_VERIF_TRACE_PARSER"] = trace          # the parser hook has its own sink variable
         p = subprocess.run([probe, inp, res, d, str(cpu_ms), "20000", "2048"], env=env, stdout=subprocess.PIPE,
                            stderr=subprocess.PIPE, timeout=3600)
         if p.returncode != 0:
@@ -231,8 +232,8 @@ class RealBinary:
         open(src, "wb").write(data)
         env = dict(os.environ)
         env.update(self.ctx.env())
-        env.pop("NANOLANG_VERIF_PARSE_FUEL", None)
-        env.pop("NANOLANG_VERIF_TRACE", None)
+        for k2 in [x for x in env if x.startswith("NANOLANG_VERIF_")]:
+            env.pop(k2)
 
         def limits():
             if not sanitize:
